@@ -1,13 +1,12 @@
 pub mod c01;
 pub mod c01m;
+pub mod c02;
 pub mod c03;
 pub mod c04;
 pub mod c05;
 pub mod c06;
 pub mod c07;
 pub mod c08;
-pub mod c02;
-pub mod c18;
 pub mod c09;
 pub mod c09a;
 pub mod c10;
@@ -18,6 +17,7 @@ pub mod c14;
 pub mod c15;
 pub mod c16;
 pub mod c17;
+pub mod c18;
 pub mod c19;
 pub mod evs;
 pub mod fraggen;
